@@ -174,6 +174,12 @@ def run_repr(ctx, case):
         ctx.require(A.shape == (dout * dout - 1, din * din - 1) and b.shape == (dout * dout - 1,), 'Bloch map shapes')
         ctx.close(A @ bv_in + b, bv_out, tol, 'Bloch map reproduces the output Bloch vector')
         ctx.label('bloch')
+        if float(np.abs(np.asarray(choi_ref).imag).max()) == 0.0:
+            # a real channel (real Kraus operators) held in a real dtype: its Choi blocks are real but NOT symmetric
+            A2, b2 = ch.choi_op_to_bloch_map(np.ascontiguousarray(np.asarray(choi_ref).real).reshape(din, dout, din, dout))
+            ctx.close(A2, A, tol, 'Bloch map of a real-dtype Choi operator = Bloch map of its complex copy (matrix)')
+            ctx.close(b2, b, tol, 'Bloch map of a real-dtype Choi operator = Bloch map of its complex copy (vector)')
+            ctx.label('bloch real dtype')
     ctx.close(K, K_before, 0, 'channel routines do not modify the Kraus operators they are given')
     ctx.close(rho, rho_before, 0, 'channel routines do not modify the input state')
     ctx.close(choi_ref, choi_ref_c, 0, 'channel routines do not modify the Choi operator they are given')
